@@ -137,6 +137,8 @@ class TypeEnv:
                 return Opt(*args)
             if head == "Map":
                 return Map(*args)
+            if head == "DefaultMap":  # collections.defaultdict: reading a missing key yields (and inserts) the default value
+                return PT("map", tuple(args), name="default")
             if head == "Tup":
                 return Tup(*args)
             raise KeyError(head)
